@@ -299,6 +299,33 @@ theorem churn_leadership (es : List Event) (hw : ∀ e ∈ es, WellFormed e) :
   exact ⟨a, rs, mem_of_lookup _ _ _ ha, mem_of_lookup _ _ _ hr, hso.online_iff, hso.leader_ok,
     hso.offline⟩
 
+/-- `LiveNodes` is exactly what the event history says: a node is live iff the last start-up /
+failure event naming it was a start-up (`aliveAfter`, defined in `Lemmas/C18Master.lean`) -/
+theorem live_is_event_history (es : List Event) (r : Nat) :
+    r ∈ (run St.init es).live ↔ aliveAfter r es false = true := by
+  have := mem_live_run r es St.init
+  simpa [St.init] using this
+
+/-- `churn_leadership` with "alive" read off the event sequence itself rather than off the
+state's `LiveNodes` -/
+theorem churn_leadership_events (es : List Event) (hw : ∀ e ∈ es, WellFormed e) :
+    let st := run St.init es
+    ∀ db ss, (db, ss) ∈ st.shards → ∀ sid s, (sid, s) ∈ ss →
+      ∃ a rs, (db, a) ∈ st.asg ∧ (sid, rs) ∈ a ∧
+        (s.state = stOnline ↔ ∃ r, r ∈ rs ∧ aliveAfter r es false = true) ∧
+        (s.state = stOnline → ∃ l : Nat, s.leader = (l : Int) ∧ aliveAfter l es false = true ∧ l ∈ rs) ∧
+        (s.state ≠ stOnline → s.state = stOffline ∧ s.leader = -1) := by
+  intro st db ss hdb sid s hsid
+  obtain ⟨a, rs, h1, h2, h3, h4, h5⟩ := churn_leadership es hw db ss hdb sid s hsid
+  refine ⟨a, rs, h1, h2, ?_, ?_, h5⟩
+  · rw [h3]
+    constructor
+    · rintro ⟨r, hr, hl⟩; exact ⟨r, hr, (live_is_event_history es r).mp hl⟩
+    · rintro ⟨r, hr, hl⟩; exact ⟨r, hr, (live_is_event_history es r).mpr hl⟩
+  · intro ho
+    obtain ⟨l, k1, k2, k3⟩ := h4 ho
+    exact ⟨l, k1, (live_is_event_history es l).mp k2, k3⟩
+
 /-- conversely every assigned shard of every database is reported -/
 theorem churn_every_shard_reported (es : List Event) (hw : ∀ e ∈ es, WellFormed e) :
     let st := run St.init es
